@@ -75,6 +75,11 @@ type Ctx struct {
 	declOf   map[*types.Func]*ast.FuncDecl
 	declPkg  map[*types.Func]*packages.Package
 	fatalErr []string
+
+	noAutoExpand bool
+	autoCache    map[*ast.FuncDecl]*canonOpts
+	autoBusy     map[*ast.FuncDecl]bool
+	declSpans    []*ast.FuncDecl
 }
 
 func newCtx(prop, tier string) *Ctx {
